@@ -578,3 +578,59 @@ Definition outside_finding (F : file) (o : op) : bool :=
   match o with LineProg _ => no_define_file F | _ => true end.
 
 Definition ans_of (r : res answer) : answer := match r with Ok a => a | Err e => AErr e end.
+
+(* operations of a history that the refinement theorem speaks about: valid queries of the file, outside the
+   known finding *)
+Definition op_ok (F : file) (o : op) : bool := valid_op F o && outside_finding F o.
+
+(* a concrete file used by the non-vacuity examples and the witness of the finding: one unit (header of 11
+   bytes, entries at 11, 15, 18, 20 and the closing null entries at 22, 23), one abbreviation table, one
+   line program with two DW_LNE_define_file, .debug_frame, two sections, one segment, one symbol, two
+   dynamic tags *)
+Definition ex_raw (size : Z) (null hc : bool) (stmt : option Z) (pid : Z) : die_raw :=
+  mk_raw size null hc None [] stmt pid [].
+Definition ex_null : die_raw := ex_raw 1 true false None 4.
+Definition ex_tree : node :=
+  Node 11 (mk_raw 4 false true None [(RefLocal, 20); (RefAddr, 15)] (Some 0) 1 [(6%nat, 77)])
+    [Node 15 (ex_raw 3 false false None 2) [] 0 ex_null;
+     Node 18 (ex_raw 2 false true None 3) [Node 20 (ex_raw 2 false false None 5) [] 0 ex_null] 22 ex_null]
+    23 ex_null.
+Definition ex_file_gen (defs : Z) : file :=
+  mk_file 24 [mk_ud 0 (mk_hdr 24 0 100) 11 ex_tree] 10 [(0, (7, 10))]
+          [(0, mk_ld (mk_lpraw 30 1 200 []) 12 (mk_lpbody 201 defs) 30)] (Some (300, 40)) None
+          1000 100 2 40 500 [(mk_shdr 0 0 400 [], 140); (mk_shdr 1 0 401 [(0%nat, 9)], 180)]
+          [(500, (1, 501)); (501, (2, 506)); (600, (3, 604))]
+          50 20 [(mk_phdr 410 [], 70)]
+          700 16 600 [(mk_sym 0 420, 716)]
+          800 16 [(mk_dyn false 430 [], 816); (mk_dyn true 431 [], 832)].
+Definition ex_file : file := ex_file_gen 2.      (* the line program executes two DW_LNE_define_file *)
+Definition ex_file0 : file := ex_file_gen 0.     (* ... none *)
+
+(* entry-tree navigation (get_parent, and resuming the generators iter_children / iter_siblings / iter_DIEs) *)
+Definition nav_frame (f : aframe) : bool :=
+  match f with AFChildren _ _ | AFSiblings _ _ _ | AFSubtree _ _ => true | _ => false end.
+Definition nav_op (afs : list aframe) (o : op) : bool :=
+  match o with
+  | Parent _ _ => true
+  | Next slot => nav_frame (nth slot afs AFEmpty)
+  | _ => false
+  end.
+
+(* a history all of whose operations satisfy [ok] in the iterator positions where they are issued *)
+Fixpoint hist_ok (F : file) (ok : list aframe -> op -> bool) (afs : list aframe) (h : list op) : bool :=
+  match h with
+  | [] => true
+  | o :: r => ok afs o && hist_ok F ok (fst (spec_step F afs o)) r
+  end.
+
+(* operations that are queries in the narrow sense: neither create nor advance a generator *)
+Definition is_query (o : op) : bool :=
+  match o with
+  | NewIterCUs _ | NewIterDIEs _ _ | NewIterChildren _ _ _ | NewIterSiblings _ _ _
+  | NewIterSections _ | NewIterSymbols _ | NewIterTags _ | Next _ => false
+  | _ => true
+  end.
+
+(* what the proved part of the step theorem covers: everything except entry-tree navigation *)
+Definition plain_ok (F : file) (afs : list aframe) (o : op) : bool := op_ok F o && negb (nav_op afs o).
+
